@@ -349,7 +349,8 @@ static spif_obj_t mp_build(int i)
     return m;
 }
 static const char *mp_bname(int i) { return MPB[i]; }
-static const char *MPM[] = { "set(a,9)", "set(z,1)", "remove(a)+del", "remove(absent)", "get_keys+del", "get_values+del", "get_pairs+del", "mutate value of a in place", "iterator walk+del" };
+static const char *MPM[] = { "set(a,9)", "set(z,1)", "remove(a)+del", "remove(absent)", "get_keys+del", "get_values+del", "get_pairs+del", "mutate value of a in place", "iterator walk+del",
+                             "set(a, the map's own value object of a)", "set(the map's own first pair, NULL)" };
 static void mp_mut(spif_obj_t m, int j)
 {
     spif_obj_t K, r; spif_list_t l;
@@ -363,6 +364,8 @@ static void mp_mut(spif_obj_t m, int j)
     case 6: l = SPIF_MAP_GET_PAIRS(m, (spif_list_t) NULL); if (l) SPIF_LIST_DEL(l); break;
     case 7: K = S_("a"); r = SPIF_MAP_GET(m, K); SPIF_OBJ_DEL(K); if (r) spif_str_append_char(SPIF_STR(r), '!'); break;
     case 8: { spif_iterator_t it = SPIF_MAP_ITERATOR(m); int g = 0; while (it && SPIF_ITERATOR_HAS_NEXT(it) && g++ < 64) (void) SPIF_ITERATOR_NEXT(it); if (it) SPIF_ITERATOR_DEL(it); break; }
+    case 9: K = S_("a"); r = SPIF_MAP_GET(m, K); if (r) SPIF_MAP_SET(m, K, r); SPIF_OBJ_DEL(K); break;          /* the map copies what it is given, so its own value object is a legal argument */
+    case 10: { spif_iterator_t it = SPIF_MAP_ITERATOR(m); spif_obj_t p = (it && SPIF_ITERATOR_HAS_NEXT(it)) ? SPIF_ITERATOR_NEXT(it) : NULL; if (it) SPIF_ITERATOR_DEL(it); if (p) SPIF_MAP_SET(m, p, (spif_obj_t) NULL); break; }
     }
 }
 static const char *mp_mname(int j) { return MPM[j]; }
